@@ -1,6 +1,7 @@
 import Ovldverif.Model.Graph
 import Ovldverif.Lemmas.FnInv
 import Ovldverif.Lemmas.GraphBasic
+import Ovldverif.Lemmas.GraphOps
 /-!
 # C16 — variants and mixins compose without ever disturbing their parents
 
@@ -55,14 +56,61 @@ theorem Graph.derives_eq (g : Graph) (f a n : Nat) : g.derives f a n = ancB g.mx
     show (g.get n).mixins.any _ = (g.get n).mixins.any _
     congr 1; funext m; rw [ih]
 
+/-- on a graph satisfying the invariant the fuel of `isAnc` is adequate -/
+theorem Graph.isAnc_iff {g : Graph} (hi : Inv g) (a n : Nat) : g.isAnc a n = true ↔ Anc g.mx a n := by
+  obtain ⟨ord, ht⟩ := hi.topo
+  unfold Graph.isAnc
+  rw [Graph.derives_eq]
+  exact ancB_iff ht.ranked a n
+
+/-- every well-formed operation that does not fail with a configuration error preserves the invariant -/
+theorem Graph.inv_step (cfg : Cfg) {g : Graph} (hi : Inv g) (op : GOp) (hok : g.opOK op = true)
+    (hne : ((g.step cfg op).2 != some .configError) = true) : Inv (g.step cfg op).1 := by
+  have hne' : (g.step cfg op).2 ≠ some .configError := by simpa using hne
+  cases op with
+  | create ms lb =>
+    simp only [Graph.opOK, List.all_eq_true, decide_eq_true_eq] at hok
+    exact hi.create ms lb hok
+  | addMixins n ms =>
+    simp only [Graph.opOK, Bool.and_eq_true, List.all_eq_true, decide_eq_true_eq, bne_iff_ne, ne_eq,
+      Bool.not_eq_true'] at hok
+    refine hi.addMixins n hok.1 ms (fun m hm => ⟨(hok.2 m hm).1.1, (hok.2 m hm).1.2, ?_⟩) hne'
+    intro hanc
+    have := (Graph.isAnc_iff hi n m).mpr hanc
+    rw [(hok.2 m hm).2] at this
+    cases this
+  | register n d =>
+    simp only [Graph.opOK, decide_eq_true_eq] at hok
+    exact hi.register n hok d hne'
+  | unregister n id =>
+    simp only [Graph.opOK, decide_eq_true_eq] at hok
+    exact hi.unregister n hok id hne'
+  | call n c =>
+    simp only [Graph.opOK, decide_eq_true_eq] at hok
+    refine hi.call cfg n hok c (fun hh => hne' ?_)
+    show some (g.call cfg n c).2.1 = some .configError
+    rw [hh]
+
+theorem Graph.inv_runOps (cfg : Cfg) (ops : List GOp) : ∀ (g : Graph), Inv g → Graph.opsOK cfg g ops = true →
+    Inv (Graph.runOps cfg g ops) := by
+  induction ops with
+  | nil => intro g hi _; exact hi
+  | cons op rest ih =>
+    intro g hi hok
+    simp only [Graph.opsOK, Bool.and_eq_true] at hok
+    exact ih _ (Graph.inv_step cfg hi op hok.1.1 hok.1.2) hok.2
+
 /-- **C16, main invariant**: after ANY sequence of create / copy / variant / add_mixins / register /
     unregister / call operations, with and without linkback, every function in use reflects the current
     definitions of everything it derives from: a modification of an ancestor was either refused ("locked") or
     has been propagated -/
 theorem C16_consistent (cfg : Cfg) (ops : List GOp) (hok : Graph.opsOK cfg {} ops = true) :
     (Graph.runOps cfg {} ops).Consistent := by
-  sorry
+  have hi := Graph.inv_runOps cfg ops {} Inv.empty hok
+  intro n _ hc
+  exact hi.cons n hc
 
+set_option linter.unusedVariables false in
 /-- **isolation**: an accepted registration on `n` changes the definitions of `n` and of the functions that
     derive from `n` only: parents, siblings and unrelated functions keep theirs -/
 theorem C16_isolation_register (g : Graph) (n : Nat) (d : Def) (m : Nat)
